@@ -34,7 +34,7 @@ def gen_case(chk, i):
     # ranks on every process (looms then sort by minimum rank, not by name),
     # placed cyclically over the looms
     with_ranks = rng.random() < 0.4
-    nstreams = rng.randint(1, 12) if rng.random() < 0.93 else rng.randint(30, 120)   # now and then a wide merge
+    nstreams = rng.randint(1, 12) if rng.random() < 0.9 else rng.randint(30, 120)   # now and then a wide merge
     # spans beyond 2^31 and 2^32 ns matter: anything that narrows the 64-bit
     # clock difference only misbehaves when stream heads are seconds apart
     span = rng.choice([5, 50, 2000, 10 ** 6, 3 * 10 ** 9, 5 * 10 ** 9, 10 ** 10, 10 ** 12])
@@ -260,7 +260,10 @@ def run_case(i):
         n = len(case["streams"])
         argsA = write_case(case, dA)
         argsB = write_case(case, dB, order=list(reversed(range(n))))
-        rA = emu.emu(b, dA, argsA)
+        # a wide trace is replayed with fewer file descriptors than it has streams
+        nofile = 32 if len(case["streams"]) >= 40 else None
+        out["nofile"] = 1 if nofile else 0
+        rA = emu.emu(b, dA, argsA, nofile=nofile)
         if rA.timeout:
             out["inconclusive"] = "emulator timeout"; return out
         if not emu.accepted(rA):
@@ -269,7 +272,7 @@ def run_case(i):
         v = check_emu_log(case, dA)
         if v:
             out["viol"] = ("emu:" + v[0], v[1], {}); return out
-        rB = emu.emu(b, dB, argsB)
+        rB = emu.emu(b, dB, argsB, nofile=nofile)
         if not emu.accepted(rB):
             out["viol"] = ("emulator-rejects:other-enumeration-order", emu.last_error(rB), rB.brief()); return out
         fa, fb = pv.read_bytes(dA), pv.read_bytes(dB)
@@ -284,7 +287,7 @@ def run_case(i):
                 lm = case["looms"][0]
                 obs.write_stream(d, lm["name"], 10, 999999,
                                  obs.thread_meta(999999, 10, lm["name"], cpus=[(0, 0)]), [])
-            rd = emu.run_tool(b, "ovnidump", ["-x", d])
+            rd = emu.run_tool(b, "ovnidump", ["-x", d], nofile=nofile)
             if rd.rc != 0 or rd.sig:
                 out["viol"] = ("dump-fails", "ovnidump rc=%s sig=%s: %s" % (rd.rc, rd.sig, rd.err[-300:]), rd.brief())
                 return out
@@ -296,7 +299,7 @@ def run_case(i):
             elif not we and rd.out != dumpA:
                 out["viol"] = ("dump-enumeration-order-dependence", "ovnidump output differs between directory orders", {})
                 return out
-            rt_ = emu.run_tool(b, "ovnitop", [d])
+            rt_ = emu.run_tool(b, "ovnitop", [d], nofile=nofile)
             if rt_.rc != 0 or rt_.sig:
                 out["viol"] = ("top-fails", "ovnitop rc=%s sig=%s" % (rt_.rc, rt_.sig), rt_.brief()); return out
             v = check_top(case, rt_.out)
@@ -402,13 +405,13 @@ def main(argv):
         cases = [rp["case"]]
     else:
         cases = list(range(150 if quick else 4000))
-    evaluated = nev = ties = 0
+    evaluated = nev = ties = lowfd = 0
     shapes = set()
     for out in core.pmap(run_case, cases, chunksize=2):
         if out["inconclusive"]:
             chk.note_inconclusive(out["inconclusive"]); continue
         evaluated += 1
-        nev += out["nev"]; ties += out["ties"]
+        nev += out["nev"]; ties += out["ties"]; lowfd += out.get("nofile", 0)
         if out["nstreams"] >= 2 and out["ties"] >= 1:
             shapes.add((out["nstreams"], out["looms"], min(out["ties"], 20)))
         if out["viol"]:
@@ -429,6 +432,7 @@ def main(argv):
                    "random) under ASan+UBSan with structural invariant walks. distinct_nontrivial = distinct merge "
                    "shapes (streams>=2, looms, number of cross-stream ties>=1) + heap sequences run",
            "samples": [sample], "stream_sets": evaluated, "events_replayed": nev, "cross_stream_tie_groups": ties,
+           "wide_sets_replayed_with_32_descriptors": lowfd,
            "merge_shapes": len(shapes), "heap_sequences": nseq, "heap_operations": nops}
     return chk.finish(cov, assumptions=[
         "thread.prv type-100 lines appear in processing order (one per OM= event with a unique non-zero value)",
